@@ -31,8 +31,8 @@ class Case:
 _schema_cache = {}
 
 
-def make_schema(rng, handlers):
-    sd = cfggen.gen_schema(rng, handlers=handlers)
+def make_schema(rng, handlers, phandler=0.5):
+    sd = cfggen.gen_schema(rng, handlers=handlers, phandler=phandler)
     # every fifth schema is delivered as a chain of three documents (schema-level extends): same schema object expected
     real = F.load_real_chain(sd, rng) if rng.random() < 0.2 else F.load_real(sd)
     elab = F.elaborate(sd)
@@ -48,11 +48,12 @@ def check_digest(ctx, sd, real, elab):
     return True
 
 
-def gen_cases(ctx, n_schemas, n_texts, handlers=False, nfaults=(0, 0, 1, 1, 2, 3), faults=None, plain=False, systematic=True):
+def gen_cases(ctx, n_schemas, n_texts, handlers=False, nfaults=(0, 0, 1, 1, 2, 3), faults=None, plain=False, systematic=True,
+              phandler=0.5):
     rng = ctx.rng
     cases = []
     for _ in range(n_schemas):
-        sd, real, elab, hn = make_schema(rng, handlers)
+        sd, real, elab, hn = make_schema(rng, handlers, phandler)
         # a digest mismatch is recorded as a broken tie; the texts still run against the EXPECTED elaboration so that a
         # schema-loading regression surfaces as a concrete (schema, text) on which the loader's result is wrong
         check_digest(ctx, sd, real, elab)
